@@ -20,6 +20,7 @@ FLAVORS = {
     "tsan": dict(cxx="g++", flags=["-O1", "-fsanitize=thread"]),
     "rel": dict(cxx="g++", flags=["-O2", "-DNDEBUG"]),
     "vg": dict(cxx="g++", flags=["-O1"]),
+    "gcov": dict(cxx="g++", flags=["-O0", "--coverage"], link=["--coverage"]),     # bin/coverage_audit.py: which libtins code the monitors' workloads reach
     "fuzz": dict(cxx="clang++-14", flags=["-O1", "-fsanitize=fuzzer-no-link,address,undefined",
                                          "-fno-sanitize=enum,object-size", "-fno-sanitize-recover=all"],
                  link=["-fsanitize=fuzzer,address,undefined"]),
